@@ -40,6 +40,11 @@ class Device:
         self.script = script
         self.owner = threading.get_ident()
         self.budget = 4000
+        self.objects: set = set()      # endpoint objects (sockets, ports, RPC clients) created and not yet closed
+        self.fail: dict = {}           # establishment op -> way it fails (every occurrence, so retries fail as well)
+
+    def failing(self, what: str) -> Optional[str]:
+        return self.fail.get(what)
 
     def _who(self) -> str:
         from qmi.core.transport import QMI_Transport
@@ -93,8 +98,11 @@ def make_socket_shim(dev: Device):
     class FakeSocket:
         def __init__(self, family=None, type_=None, *a):
             dev.op("socket()")
+            if dev.failing("socket()"):
+                raise OSError(24, "Too many open files")
             self._timeout: Optional[float] = None
             self._closed = False
+            dev.objects.add(self)
 
         def settimeout(self, t):
             self._timeout = t
@@ -104,15 +112,28 @@ def make_socket_shim(dev: Device):
 
         def bind(self, addr):
             dev.op("bind")
+            if dev.failing("bind"):
+                raise OSError(98, "Address already in use")
             dev.connected(id(self))
 
         def connect(self, addr):
             dev.op("connect")
+            way = dev.failing("connect")
+            if way == "timeout":
+                # the caller gives up, the kernel goes on connecting: unless this socket is closed the connection
+                # gets established later on a descriptor nobody looks at any more
+                dev.connected(id(self))
+                raise real.timeout("timed out")
+            if way == "refused":
+                raise ConnectionRefusedError(111, "Connection refused")
+            if way == "unreachable":
+                raise OSError(113, "No route to host")
             dev.connected(id(self))
 
         def close(self):
             dev.op("close")
             dev.links.discard(id(self))
+            dev.objects.discard(self)
             self._closed = True
 
         def _need(self):
@@ -168,6 +189,9 @@ def make_serial_shim(dev: Device):
     class FakeSerial:
         def __init__(self, port=None, **kw):
             dev.op("Serial()")
+            if dev.failing("Serial()"):
+                raise real.SerialException(f"could not open port {port}")
+            dev.objects.add(self)
             dev.connected(id(self))
             self.timeout = kw.get("timeout")
             self.is_open = True
@@ -204,6 +228,7 @@ def make_serial_shim(dev: Device):
         def close(self):
             dev.op("close")
             dev.links.discard(id(self))
+            dev.objects.discard(self)
             self.is_open = False
 
     class Shim:
@@ -230,10 +255,23 @@ def make_vxi11_coreclient(dev: Device):
 
         def __init__(self, host, port=0):
             dev.op("rpc-connect")
+            way = dev.failing("rpc-connect")
+            if way == "refused":
+                raise ConnectionRefusedError(111, "Connection refused")
+            if way == "timeout":
+                import socket as _s
+                raise _s.timeout("timed out")
             self.sock = _Sock()
+            dev.objects.add(self)
 
         def create_link(self, client_id, lock_device, lock_timeout, name):
             dev.op("create_link")
+            way = dev.failing("create_link")
+            if way == "error":
+                return 9, 0, 0, 0              # "out of resources": the device has no free link
+            if way == "timeout":
+                import socket as _s
+                raise _s.timeout("timed out")
             FakeCoreClient._next[0] += 1
             dev.connected(("vxi", FakeCoreClient._next[0]))
             return 0, FakeCoreClient._next[0], 0, 1024
@@ -245,6 +283,7 @@ def make_vxi11_coreclient(dev: Device):
 
         def close(self):
             dev.op("rpc-disconnect")
+            dev.objects.discard(self)
 
         def device_write(self, link, timeout, lock_timeout, flags, data):
             dev.op("device_write")
@@ -321,6 +360,8 @@ def make_usbtmc_instrument(dev: Device):
             if self.connected:
                 return
             dev.op("usb-open")
+            if dev.failing("usb-open"):
+                raise U.UsbtmcException("Device not found", "init")
             dev.connected(("usb", id(self)))
             self.bulk_out_ep, self.bulk_in_ep = _Out(self), _In(self)
             self.connected = True
@@ -460,4 +501,91 @@ def closed_histories(cls, variant: str, kind: str, builder: "D.Builder", methods
             sweep("open-close")
         except (D.Budget, D.Watchdog):
             stats(f"endpoint_{kind}_aborted_by_guard")
+    return out
+
+
+# ---------------------------------------------------------------------------
+# faults during link establishment, judged at the endpoint level
+# ---------------------------------------------------------------------------
+
+ESTABLISH = {
+    "tcp": [("socket()", "oserror"), ("connect", "timeout"), ("connect", "refused"), ("connect", "unreachable")],
+    "udp": [("socket()", "oserror"), ("bind", "oserror")],
+    "serial": [("Serial()", "oserror")],
+    "vxi11": [("rpc-connect", "refused"), ("rpc-connect", "timeout"), ("create_link", "error"), ("create_link", "timeout")],
+    "usbtmc": [("usb-open", "oserror")],
+}
+
+
+def establish_faults(cls, variant: str, kind: str, builder, stats) -> list:
+    """Every endpoint operation of link establishment fails in each way (refused / unreachable / timeout with a late
+    connection / no resources …) while the driver's open() runs on the real transport.  Oracle on the endpoint level:
+    after the failed open() nothing the transport created is left un-closed, no link exists, is_open() is False and
+    every transport flag is False; afterwards a fault-free open()/close() works and leaves nothing behind either.
+    cls = None: the bare transport object (create_transport).  Returns [(op, way, transport-method, clause, detail)]."""
+    from qmi.core.transport import QMI_Transport
+    out = []
+    for op, way in ESTABLISH[kind]:
+        dev = Device(D.script_for(cls) if cls is not None else None)
+        with Patched(dev), D.VirtualTime(), D._Alarm(60):
+            try:
+                if cls is None:
+                    from qmi.core.transport import create_transport
+                    inst = None
+                    transports = [create_transport(KINDS[kind])]
+                    do_open, do_close = transports[0].open, transports[0].close
+                    is_open = lambda: False                          # noqa: E731
+                else:
+                    inst = _build_real(cls, dict(D.variants_of(cls)).get(variant), KINDS[kind], builder)
+                    transports = [v for v in vars(inst).values() if isinstance(v, QMI_Transport)]
+                    do_open, do_close, is_open = inst.open, inst.close, (lambda: bool(inst.is_open()))
+            except Exception:
+                stats(f"establish_{kind}_not_constructible")
+                return out
+            if not transports:
+                return out
+            dev.fail = {op: way}
+            try:
+                try:
+                    do_open()
+                    raised = None
+                except (D.Budget, D.Watchdog):
+                    raise
+                except BaseException as e:
+                    raised = e
+                stats("establish_fault_runs")
+                stats(f"establish_{kind}_{op}_{way}_" + ("raised" if raised is not None else "open_succeeded"))
+                who = type(transports[0]).__name__ + "._open_transport"
+                flags = [bool(t._is_open) for t in transports]
+                clause = None
+                if raised is not None:
+                    if is_open() or any(flags):
+                        clause = "marked open after a failed link establishment"
+                    elif dev.objects or dev.links:
+                        clause = "endpoint left un-closed"
+                else:
+                    if dev.fail and not (all(flags) and (cls is None or is_open())):
+                        clause = "open() returned although the link was not established"
+                if clause is None and raised is not None:
+                    # the instrument must be usable again once the device is reachable
+                    dev.fail = {}
+                    try:
+                        do_open()
+                        do_close()
+                        if dev.objects or dev.links:
+                            clause = "endpoint left un-closed after a later successful open()/close()"
+                    except (D.Budget, D.Watchdog):
+                        raise
+                    except BaseException as e2:
+                        if cls is None:
+                            clause = f"retry after the failed open() fails ({type(e2).__name__})"
+                        else:
+                            stats("establish_retry_failed(handshake)")
+                if clause:
+                    out.append((op, way, who, clause,
+                                f"open() {'raised ' + type(raised).__name__ if raised is not None else 'returned'}; un-closed endpoint "
+                                f"objects: {len(dev.objects)}, established links: {len(dev.links)}, transport flags {flags}, "
+                                f"is_open()={is_open()}"))
+            except (D.Budget, D.Watchdog):
+                stats(f"establish_{kind}_aborted_by_guard")
     return out
